@@ -1,5 +1,5 @@
 """Gated family: C11 C17. Model: spec/gated/Gated.tla. Binding: spec -> code replay on a real gated.Filter."""
-import json, os, time, concurrent.futures as cf
+import json, os, shutil, time, concurrent.futures as cf
 from vlib import *
 
 CONST = '''CONSTANTS
@@ -59,6 +59,107 @@ def replay(vh, scr, broker, e, tag, edges=None, walks=None, conc=0):
     return r
 
 
+TRACE_CFG = """SPECIFICATION TSpec
+CONSTANTS
+  IDs = {"x", "y", "z"}
+  E = 2
+  BrokerSet = %s
+  MaxDepth = 0
+  MaxClock = 0
+  MaxEvents = 0
+  Fails = {}
+  Dev = {}
+INVARIANTS Report TExactlyOnce TNoMixing TMemoryBounded TNoExpiredAfterProcess TEmptyAfterFlushAll
+CHECK_DEADLOCK FALSE
+"""
+
+
+def record_hist(vh, scr, seed, n, broker, tag):
+    hist = scr.path("ghist-%s.ndjson" % tag)
+    rp = scr.path("ghist-%s.json" % tag)
+    p = run_vh(vh, ["gated-hist", "-seed", str(seed), "-n", str(n), "-e", "2", "-broker=%s" % ("true" if broker else "false"), "-hist", hist, "-out", rp], timeout=1200)
+    if p.returncode != 0:
+        raise Broken("gated-hist failed: " + p.stderr[-1500:])
+    return hist, json.load(open(rp))
+
+
+def validate_hist(scr, hist, broker, tag):
+    """Code -> spec: TLC looks for linearisation points that explain each recorded history (GatedTrace.tla)."""
+    wd = scr.path("tlc-gtrace-" + tag)
+    shutil.copytree(os.path.join(VERIF, "spec", "gated"), wd)
+    shutil.copy(hist, os.path.join(wd, "gconc.ndjson"))
+    res = run_tlc(scr, "gated", "GatedTrace", TRACE_CFG % ("TRUE" if broker else "FALSE"), "gtrace-" + tag, workers=8, timeout=1800, heap="8g")
+    acc = set()
+    for line in open(res.out_path, errors="replace"):
+        if line.startswith('<<"ACCEPT"'):
+            acc.add(int(line.strip().strip("<>").split(",")[1]))
+    ids = [json.loads(l)["id"] for l in open(hist) if l.strip()]
+    return acc, ids, res
+
+
+def corrupt_hist(hist, outp, n=10):
+    """Binding self-test: reverse a composite of two or more events / drop one of its members."""
+    k = 0
+    with open(outp, "w") as f:
+        for line in open(hist):
+            h = json.loads(line)
+            done = False
+            for i, r in enumerate(h["h"]):
+                if r["k"] != "resp":
+                    continue
+                if len(r.get("ret") or []) == 2 and len(r["ret"][1]) >= 2:
+                    r["ret"][1] = r["ret"][1][::-1] if k % 2 == 0 else r["ret"][1][:-1]
+                    done = True
+                    break
+                big = [c for c in (r.get("sent") or []) if len(c) >= 2]
+                if big:
+                    j = r["sent"].index(big[0])
+                    r["sent"][j] = big[0][::-1] if k % 2 == 0 else big[0][1:]
+                    done = True
+                    break
+            if done:
+                f.write(json.dumps(h) + "\n")
+                k += 1
+                if k >= n:
+                    break
+    return k
+
+
+def conc_traces(vh, scr, prop, seed, quick, out):
+    total = 0
+    for broker, n, tag in ((True, 150 if quick else 1500, "b"), (False, 50 if quick else 400, "nb")):
+        t0 = time.time()
+        hist, rep = record_hist(vh, scr, seed, n, broker, tag)
+        for pn in rep["panics"]:
+            out.violation("concurrent callers: " + pn, {"panic": pn})
+        acc, ids, res = validate_hist(scr, hist, broker, tag)
+        if res.error:
+            raise Broken("GatedTrace validation failed: " + str(res.error))
+        if res.violated and res.violated != "Report":
+            # an invariant of Gated is false in a state of a matched behaviour: the model itself is inconsistent
+            raise Broken("GatedTrace: invariant %s violated on a matched prefix (specification error)" % res.violated)
+        out.add_tlc(res)
+        log("  gated-hist %-3s %5.1fs histories=%d ops=%d accepted=%d" % (tag, time.time() - t0, len(ids), rep["ops"], len(acc)))
+        hs = {json.loads(l)["id"]: json.loads(l) for l in open(hist) if l.strip()}
+        for i in ids:
+            if i not in acc:
+                out.violation("concurrent history %d (%s Broker, %d goroutines) has no linearisation: some call returned or sent what no atomic order of the calls produces "
+                              "(event lost, duplicated, out of arrival order, mixed ids, or left gated after FlushAll / expiry)" % (i, "with" if broker else "without", hs[i]["g"]),
+                              {"history": hs[i], "broker_set": broker})
+        total += len(ids)
+        if broker:
+            cp = scr.path("ghist-corrupt.ndjson")
+            k = corrupt_hist(hist, cp)
+            if k < 3:
+                raise Broken("gated self-test: too few corruptible histories")
+            acc2, ids2, res2 = validate_hist(scr, cp, True, "selftest")
+            if acc2:
+                raise Broken("gated self-test: corrupted histories accepted: %s" % sorted(acc2)[:5])
+            out.notes.append("binding self-test: %d histories with one composite reversed or truncated were all rejected by GatedTrace" % k)
+    out.coverage["concurrent_histories_validated"] = total
+    return total
+
+
 def run(prop, tier, seed, out):
     quick = tier == "quick"
     with Scratch("gated") as scr:
@@ -90,12 +191,13 @@ def run(prop, tier, seed, out):
                 if not f.result().violated:
                     raise Broken("deviation %s breaks no invariant (vacuous)" % dv)
             out.notes.append("vacuity: expiry_first_only and flushall_first_only each violate an invariant of Gated")
+        nconc = conc_traces(vh, scr, prop, seed, quick, out)
         edges = sum(r["edges"] for _, r in reports)
         walks = sum(r["walks"] for _, r in reports)
         if edges < 100 or walks < 10:
             raise Broken("replay covered too little: %d edges %d walks" % (edges, walks))
         cov = out.coverage
-        cov["traces_validated_against_impl"] = edges + walks
+        cov["traces_validated_against_impl"] = edges + walks + nconc
         cov["evaluations"] = sum(r["comparisons"] for _, r in reports)
         cov["distinct_nontrivial"] = sum(r["distinct_nontrivial"] for _, r in reports)
         cov["impl_calls"] = sum(r["calls"] for _, r in reports)
